@@ -65,6 +65,16 @@ func systematicPkgCases(id *int, profile, scratch string, rng *rand.Rand, tier s
 		out = append(out, &PkgCase{ID: *id, Profile: profile + ":" + sub, Cfg: c, Nodes: nodes, Root: filepath.Join(scratch, fmt.Sprintf("pkg-%d", *id)), Formats: allFormats})
 	}
 	plain := Entry{Type: "file", Src: "src/bin", Dst: "/usr/bin/tool"}
+	if profile == "overrides" { // the override groups of the three other profiles
+		for _, p := range []string{"meta", "scripts", "payload"} {
+			for _, pc := range systematicPkgCases(id, p, scratch, rng, tier) {
+				if strings.Contains(pc.Profile, ":override-") {
+					out = append(out, pc)
+				}
+			}
+		}
+		return out
+	}
 	switch profile {
 	case "meta":
 		// every documented GOARCH value (+ all, + unknown values) x five formats
